@@ -13,6 +13,7 @@ for d in seeded/*-*/; do
     r=$(./check $p quick 2>&1 | grep -E "^(OK|VIOLATION)" | head -1 | cut -c1-220)
     echo "$id: check $p -> $r" >> $OUT
   done
+  [ -f $d/neutralised ] && echo "$id: NOTE $(cat $d/neutralised)" >> $OUT
   git -C /repo checkout -- .
 done
 git -C /repo status --short
